@@ -78,6 +78,26 @@ func TestC13(t *testing.T) {
 		h := RampHistory(c.R, sig, nb, n, high)
 		run(c, h, o, sig.String(), fmt.Sprint(high))
 	})
+	// every dictionary-encodable field of every record type unique per item: ALL dictionary columns (nested
+	// resource / scope / status columns and the four attribute tables included) reach the limit, at once or -
+	// staggered - one after the other
+	r.Layer("wide", e.Pick(9, 45), func(c *vc.Case) {
+		sig := canon.Signal(c.Idx % 3)
+		o := DefaultOpts()
+		o.Limit = []string{"8", "none", "16", "8", "default"}[(c.Idx/3)%5]
+		o.Reset = []float64{0, 0.05, 0.3, 1, 10, -1}[c.R.IntN(6)]
+		o.Zstd = c.R.IntN(2)
+		var h *History
+		switch c.R.IntN(3) {
+		case 0:
+			h = WideHistory(sig, 4, 300, 0)
+		case 1:
+			h = WideHistory(sig, 3, 700, 0)
+		default:
+			h = WideHistory(sig, 50, 120, 1)
+		}
+		run(c, h, o, sig.String(), "wide")
+	})
 	// dictionaries disabled: no dictionary type anywhere
 	r.Layer("none", e.Pick(30, 300), func(c *vc.Case) {
 		g := gen.New(c.R, gen.DValid)
